@@ -4,6 +4,7 @@ import (
 	"bytes"
 	"context"
 	"fmt"
+	"runtime"
 	"sync"
 	"testing"
 	"time"
@@ -372,6 +373,30 @@ func TestC15Inbound(t *testing.T) {
 			if closeRead {
 				crCtx = lc.C.CloseRead(context.Background())
 			}
+			// meanwhile the library is sending streamed (compressed) messages of its own:
+			// its Pongs go out between the frames of those messages
+			var wrote [][]byte
+			wdone := e.Call(func() {
+				for k := 0; k < 3; k++ {
+					m := expand(ckText, uint64(caseNo*17+k), 3000)
+					w, err := lc.C.Writer(context.Background(), websocket.MessageText)
+					if err != nil {
+						return
+					}
+					for off := 0; off < len(m); off += 1000 {
+						if _, err := w.Write(m[off : off+1000]); err != nil {
+							return
+						}
+						for y := 0; y < 50; y++ {
+							runtime.Gosched()
+						}
+					}
+					if w.Close() != nil {
+						return
+					}
+					wrote = append(wrote, m)
+				}
+			})
 			lc.End.Write(stream)
 			if closeRead {
 				e.sleep(2 * time.Second)
@@ -389,9 +414,17 @@ func TestC15Inbound(t *testing.T) {
 					return
 				}
 			}
+			within(wdone, 60*time.Second)
 			lc.C.CloseNow()
 			lc.Peer.waitEOF(30 * time.Second)
 			out, _ := lc.Peer.snapshot()
+			if rep, verr := ref.ValidateStream(lc.End.InRecording(), ref.StreamOpts{FromClient: mode.Client, Deflate: lc.Agreed.Deflate, Takeover: lc.Agreed.SenderTakeover(mode.Client)}, true); verr != nil {
+				fail = "what the library sent while answering Pings is not a well-formed stream: " + verr.Error()
+				return
+			} else if len(rep.Messages) < len(wrote) {
+				fail = fmt.Sprintf("%d of the %d messages written beside the Pings are on the wire", len(rep.Messages), len(wrote))
+				return
+			}
 			var want, got [][]byte
 			for _, f := range frames {
 				if f.Opcode == ref.OpPing {
